@@ -18,6 +18,7 @@ import (
 	"fmt"
 	"math/rand/v2"
 	"sync"
+	"sync/atomic"
 	"testing"
 	"time"
 
@@ -276,6 +277,25 @@ type recChain struct {
 	nPreRejected map[ids.ID]int
 
 	parentUnpopulated int
+
+	// onCallback, when set, runs at the start of every VerifyBlock/AcceptBlock
+	// (on the calling goroutine, no recorder lock held): a synchronisation point
+	// inside the wrapper's progress.
+	onCallback atomic.Pointer[func()]
+}
+
+func (c *recChain) setOnCallback(f func()) {
+	if f == nil {
+		c.onCallback.Store(nil)
+		return
+	}
+	c.onCallback.Store(&f)
+}
+
+func (c *recChain) callback() {
+	if f := c.onCallback.Load(); f != nil {
+		(*f)()
+	}
 }
 
 func newRecChain(cc *caseCtx, genesis *blk, ready bool) *recChain {
@@ -395,6 +415,7 @@ func (c *recChain) BuildBlock(_ context.Context, _ *block.Context, parent *outBl
 var errInvalidBlock = errors.New("snowx: block refused by the chain")
 
 func (c *recChain) VerifyBlock(_ context.Context, parent *outBlk, b *blk) (*outBlk, error) {
+	c.callback()
 	c.mu.Lock()
 	c.seq++
 	vc := verifyCall{seq: c.seq, id: b.id, height: b.Hght}
@@ -428,6 +449,7 @@ func (c *recChain) VerifyBlock(_ context.Context, parent *outBlk, b *blk) (*outB
 }
 
 func (c *recChain) AcceptBlock(_ context.Context, parent *accBlk, o *outBlk) (*accBlk, error) {
+	c.callback()
 	c.gate.pass()
 	c.mu.Lock()
 	known := c.knownOutput(o)
@@ -587,18 +609,20 @@ type engine struct {
 	vm    *xvm
 	ctx   context.Context
 
-	nodes    []*node
-	byID     map[ids.ID]*node
-	accepted []*node // accepted chain in order of acceptance (first = genesis / sync start)
-	last     *node
-	pref     *node
-	nonce    uint64
-	ready    bool
+	nodes     []*node
+	byID      map[ids.ID]*node
+	accepted  []*node // accepted chain in order of acceptance (first = genesis / sync start)
+	last      *node
+	pref      *node
+	nonce     uint64
+	ready     bool
+	syncStart int // index in accepted of the block the state sync started at
 
 	// shared with reader goroutines
-	amu    sync.Mutex
-	accByH map[uint64]ids.ID
-	tipH   uint64
+	amu      sync.Mutex
+	accByH   map[uint64]ids.ID
+	deferred []readObs
+	tipH     uint64
 
 	lag     int // accepts issued - permits granted (only while the gate is closed)
 	maxSeen int
